@@ -98,6 +98,67 @@ theorem dead_fields (P : Prog) (fuel : Nat) (kind : Kind) (f : Nat) (s : St) (i 
       cases o' <;> exact ⟨rfl, j, z, rfl⟩
 
 
+/-- **panic bookkeeping restored** (code with gomacro a642365, `savesPanic = true`): if no panic is recorded
+    when the evaluation starts, none is recorded when it is over (normally or aborted at any point), and `Panic`
+    has its old value: nothing is left for a later `recover()` (`stale_panicfun_harmless`, for all programs). -/
+theorem panic_bookkeeping_restored (P : Prog) (hfix : P.savesPanic = true) (fuel : Nat) (kind : Kind) (f : Nat) (s : St)
+    (h0 : s.run.panicFun = none) (hn : 0 < s.nextEnv) :
+    (evalTop P fuel kind f s).2.run.panicFun = none ∧
+    (evalTop P fuel kind f s).2.run.panicVal = s.run.panicVal ∧
+    s.nextEnv ≤ (evalTop P fuel kind f s).2.nextEnv := by
+  have pr := pair_all P hfix fuel
+  have hinv : Inv [] { s with run := { s.run with sync := .none, currEnv := some 0 } } :=
+    ⟨fun e he => by simp [h0] at he, fun e he => by cases he⟩
+  unfold evalTop
+  cases kind with
+  | callF =>
+    simp only
+    have hb := pr.2.1 [] f { s with run := { s.run with sync := .none, currEnv := some 0 } } hinv
+    rcases hcf : callFn P fuel f { s with run := { s.run with sync := .none, currEnv := some 0 } } with ⟨o, s1⟩
+    rw [hcf] at hb
+    have hp := hb.2.2 (fun _ e _ he => by cases he)
+    exact ⟨hp.1.trans h0, hp.2, hb.2.1⟩
+  | topCode =>
+    simp only
+    have hb := pr.2.2.1 [] f 0 { s with run := { s.run with sync := .none, currEnv := some 0 } } hinv (by simp) hn
+    rcases hcf : execFn P fuel f 0 { s with run := { s.run with sync := .none, currEnv := some 0 } } with ⟨o, s1⟩
+    rw [hcf] at hb
+    have hp := hb.2.2 (fun _ e _ he => by cases he)
+    exact ⟨hp.1.trans h0, hp.2, hb.2.1⟩
+
+/-- the state of `fast.Run` between evaluations -/
+def Idle (s : St) : Prop :=
+  s.run.efStart = false ∧ s.run.efDefer = false ∧ s.run.deferOfFun = none ∧ s.run.currEnv = none ∧
+  s.run.panicFun = none ∧ 0 < s.nextEnv
+
+/-- **abort_restores, all live fields.**  Every evaluation -- whatever the program, wherever it is aborted --
+    takes an idle interpreter back to an idle interpreter with the same `Panic`; by `dead_fields` the two
+    remaining fields (`Interrupt`, `Sync`) cannot influence what follows.  Hence, by induction, this holds
+    after any history of evaluations. -/
+theorem idle_preserved (P : Prog) (hfix : P.savesPanic = true) (fuel : Nat) (kind : Kind) (f : Nat) (s : St) (h : Idle s) :
+    Idle (evalTop P fuel kind f s).2 ∧ (evalTop P fuel kind f s).2.run.panicVal = s.run.panicVal := by
+  obtain ⟨h1, h2, h3, h4, h5, h6⟩ := h
+  have ha := abort_restores P fuel kind f s h1
+  have hp := panic_bookkeeping_restored P hfix fuel kind f s h5 h6
+  exact ⟨⟨ha.1, ha.2.1.trans h2, ha.2.2.1.trans h3, ha.2.2.2.trans h4, hp.1, Nat.lt_of_lt_of_le h6 hp.2.2⟩, hp.2.1⟩
+
+/-- any history of evaluations (each with its own program, fault point and fuel) from a fresh interpreter -/
+def evalHistory : List (Prog × Nat × Kind × Nat) → St → St
+  | [], s => s
+  | (P, fuel, kind, f) :: rest, s => evalHistory rest (evalTop P fuel kind f s).2
+
+theorem idle_after_history (h : List (Prog × Nat × Kind × Nat)) (hfix : ∀ x ∈ h, x.1.savesPanic = true) (s : St) (hs : Idle s) :
+    Idle (evalHistory h s) ∧ (evalHistory h s).run.panicVal = s.run.panicVal := by
+  induction h generalizing s with
+  | nil => exact ⟨hs, rfl⟩
+  | cons x rest ih =>
+    obtain ⟨P, fuel, kind, f⟩ := x
+    have h1 := idle_preserved P (hfix (P, fuel, kind, f) (List.Mem.head _)) fuel kind f s hs
+    have h2 := ih (fun y hy => hfix y (List.Mem.tail _ hy)) _ h1.1
+    exact ⟨h2.1, h2.2.trans h1.2⟩
+
+theorem idle_fresh : Idle ({} : St) := ⟨rfl, rfl, rfl, rfl, rfl, by decide⟩
+
 /-! ## the three defects found with this machinery, as facts about the model
 (the evaluator is defined by well-founded recursion, so concrete runs are computed with its equation lemmas) -/
 
